@@ -548,3 +548,198 @@ pub proof fn lemma_lid_roundtrip_suffix(v: LidView, rest: Seq<Seq<u8>>)
         }
     }
 }
+
+// ---- C04: the canonical string is never longer than the input -------------------------------------------------------------
+/// length of "t0-t1-...": the subtags plus one separator between neighbours
+pub open spec fn jl(t: Seq<Seq<u8>>) -> int
+    decreases t.len()
+{
+    if t.len() == 0 { 0 } else if t.len() == 1 { t[0].len() as int } else { t[0].len() + 1 + jl(t.skip(1)) }
+}
+/// sum of (1 + length) over a sequence of subtags
+pub open spec fn wsum(s: Seq<Seq<u8>>) -> int
+    decreases s.len()
+{
+    if s.len() == 0 { 0 } else { wsum(s.drop_last()) + 1 + s.last().len() }
+}
+pub proof fn lemma_wsum_concat(a: Seq<Seq<u8>>, b: Seq<Seq<u8>>)
+    ensures wsum(a + b) == wsum(a) + wsum(b),
+    decreases b.len(),
+{
+    if b.len() == 0 { assert(a + b =~= a); }
+    else { assert((a + b).drop_last() =~= a + b.drop_last()); assert((a + b).last() == b.last()); lemma_wsum_concat(a, b.drop_last()); }
+}
+pub proof fn lemma_wsum_one(x: Seq<u8>)
+    ensures wsum(seq![x]) == 1 + x.len(),
+{
+    assert(seq![x].drop_last() =~= Seq::<Seq<u8>>::empty());
+    assert(seq![x].last() == x);
+    assert(wsum(seq![x].drop_last()) == 0);
+}
+pub proof fn lemma_jl_wsum(t: Seq<Seq<u8>>)
+    requires t.len() > 0,
+    ensures jl(t) == wsum(t) - 1,
+    decreases t.len(),
+{
+    if t.len() == 1 { assert(t =~= seq![t[0]]); lemma_wsum_one(t[0]); }
+    else {
+        lemma_jl_wsum(t.skip(1));
+        assert(t =~= seq![t[0]] + t.skip(1));
+        lemma_wsum_concat(seq![t[0]], t.skip(1));
+        lemma_wsum_one(t[0]);
+    }
+}
+pub proof fn lemma_split_len(b: Seq<u8>)
+    ensures jl(subtags_of(b)) == b.len(), subtags_of(b).len() > 0,
+    decreases b.len(),
+{
+    lemma_first_sep_bounds(b, sepf());
+    lemma_split_nonempty(b, sepf());
+    let i = first_sep_by(b, sepf()) as int;
+    if i >= b.len() {
+        assert(subtags_of(b) =~= seq![b]);
+    } else {
+        let rest = b.skip(i + 1);
+        lemma_split_len(rest);
+        let t = subtags_of(b);
+        assert(t =~= seq![b.take(i)] + subtags_of(rest));
+        assert(t.len() >= 2);
+        assert(t.skip(1) =~= subtags_of(rest));
+        assert(t[0] == b.take(i));
+    }
+}
+pub proof fn lemma_dash_join_len(s: Seq<Seq<u8>>)
+    ensures dash_join(s).len() == wsum(s),
+    decreases s.len(),
+{
+    if s.len() > 0 { lemma_dash_join_len(s.drop_last()); }
+}
+pub proof fn lemma_wsum_remove(s: Seq<Seq<u8>>, p: int)
+    requires 0 <= p < s.len(),
+    ensures wsum(s.remove(p)) + 1 + s[p].len() == wsum(s),
+    decreases s.len(),
+{
+    if p == s.len() - 1 {
+        assert(s.remove(p) =~= s.drop_last());
+    } else {
+        lemma_wsum_remove(s.drop_last(), p);
+        assert(s.remove(p).drop_last() =~= s.drop_last().remove(p));
+        assert(s.remove(p).last() == s.last());
+        assert(s.drop_last()[p] == s[p]);
+    }
+}
+pub open spec fn wsum_range(t: Seq<Seq<u8>>, a: int, e: int) -> int
+    decreases e - a
+{
+    if e <= a { 0 } else { wsum_range(t, a, e - 1) + 1 + t[e - 1].len() }
+}
+pub open spec fn occurs_lower(t: Seq<Seq<u8>>, a: int, e: int, x: Seq<u8>) -> bool { exists|i: int| a <= i < e && x == lower(#[trigger] t[i]) }
+/// distinct values that all occur (lower-cased) among the subtags t[a..e) weigh no more than those subtags
+pub proof fn lemma_wsum_injection(vs: Seq<Seq<u8>>, t: Seq<Seq<u8>>, a: int, e: int)
+    requires
+        0 <= a <= e <= t.len(), vs.no_duplicates(),
+        forall|j: int| 0 <= j < vs.len() ==> occurs_lower(t, a, e, #[trigger] vs[j]),
+    ensures wsum(vs) <= wsum_range(t, a, e),
+    decreases e - a,
+{
+    if e == a {
+        if vs.len() > 0 { assert(occurs_lower(t, a, e, vs[0])); }
+    } else {
+        let x = lower(t[e - 1]);
+        assert(x.len() == t[e - 1].len());
+        if vs.contains(x) {
+            let p = choose|p: int| 0 <= p < vs.len() && vs[p] == x;
+            let vs2 = vs.remove(p);
+            assert(vs2.no_duplicates()) by {
+                assert forall|i: int, j: int| 0 <= i < vs2.len() && 0 <= j < vs2.len() && i != j implies vs2[i] != vs2[j] by {
+                    let oi = if i < p { i } else { i + 1 }; let oj = if j < p { j } else { j + 1 };
+                    assert(vs2[i] == vs[oi] && vs2[j] == vs[oj]);
+                }
+            }
+            assert forall|j: int| 0 <= j < vs2.len() implies occurs_lower(t, a, e - 1, #[trigger] vs2[j]) by {
+                let oj = if j < p { j } else { j + 1 };
+                assert(vs2[j] == vs[oj]);
+                assert(occurs_lower(t, a, e, vs[oj]));
+                let i = choose|i: int| a <= i < e && vs[oj] == lower(#[trigger] t[i]);
+                if i == e - 1 { assert(vs[oj] == x); assert(vs[oj] == vs[p]); assert(false); }
+            }
+            lemma_wsum_injection(vs2, t, a, e - 1);
+            lemma_wsum_remove(vs, p);
+        } else {
+            assert forall|j: int| 0 <= j < vs.len() implies occurs_lower(t, a, e - 1, #[trigger] vs[j]) by {
+                assert(occurs_lower(t, a, e, vs[j]));
+                let i = choose|i: int| a <= i < e && vs[j] == lower(#[trigger] t[i]);
+                if i == e - 1 { assert(vs.contains(vs[j])); assert(false); }
+            }
+            lemma_wsum_injection(vs, t, a, e - 1);
+        }
+    }
+}
+pub proof fn lemma_wsum_range_split(t: Seq<Seq<u8>>, a: int, m: int, e: int)
+    requires 0 <= a <= m <= e <= t.len(),
+    ensures wsum_range(t, a, e) == wsum_range(t, a, m) + wsum_range(t, m, e),
+    decreases e - m,
+{
+    if e > m { lemma_wsum_range_split(t, a, m, e - 1); }
+}
+pub proof fn lemma_wsum_range_all(t: Seq<Seq<u8>>, e: int)
+    requires 0 <= e <= t.len(),
+    ensures wsum_range(t, 0, e) == wsum(t.take(e)),
+    decreases e,
+{
+    if e > 0 {
+        lemma_wsum_range_all(t, e - 1);
+        assert(t.take(e).drop_last() =~= t.take(e - 1));
+        assert(t.take(e).last() == t[e - 1]);
+    } else { assert(t.take(0) =~= Seq::<Seq<u8>>::empty()); }
+}
+pub proof fn lemma_strict_sorted_no_dup(s: Seq<Seq<u8>>)
+    requires strictly_sorted(s),
+    ensures s.no_duplicates(),
+{
+    assert forall|i: int, j: int| 0 <= i < s.len() && 0 <= j < s.len() && i != j implies s[i] != s[j] by {
+        if i < j { assert(lex_lt(s[i], s[j])); } else { assert(lex_lt(s[j], s[i])); }
+    }
+}
+
+/// C04: for every accepted input the canonical string of the prescribed value is no longer than the input
+pub proof fn lemma_lid_ser_not_longer(b: Seq<u8>, v: LidView)
+    requires lid_accepts(subtags_of(b), false), lid_expected(subtags_of(b), v),
+    ensures lid_ser(v).len() <= b.len(),
+{
+    let t = subtags_of(b);
+    let n = t.len() as int;
+    lemma_split_len(b);
+    lemma_jl_wsum(t);
+    lemma_und_props();
+    lemma_var_run_bounds(t, var_pos(t));
+    let vp = var_pos(t);
+    assert(lid_end(t) == n);
+    // output side
+    lemma_lid_ser_is_join(v);
+    let rest = opt_seq(v.script) + opt_seq(v.region) + v.variants;
+    lemma_dash_join_len(rest);
+    lemma_wsum_concat(opt_seq(v.script) + opt_seq(v.region), v.variants);
+    lemma_wsum_concat(opt_seq(v.script), opt_seq(v.region));
+    if v.script is Some { lemma_wsum_one(v.script->0); }
+    if v.region is Some { lemma_wsum_one(v.region->0); }
+    assert(lang_text(v.lang).len() == t[0].len()) by { assert(lower(t[0]).len() == t[0].len()); }
+    if has_script(t) { assert(title(t[1]).len() == t[1].len()); }
+    if has_region(t) { assert(upper(t[region_pos(t)]).len() == t[region_pos(t)].len()); }
+    // the variants: distinct, each the lower-cased form of one of the variant subtags
+    lemma_strict_sorted_no_dup(v.variants);
+    assert forall|j: int| 0 <= j < v.variants.len() implies occurs_lower(t, vp, n, #[trigger] v.variants[j]) by {
+        assert(v.variants.contains(v.variants[j]));
+        assert(lid_var_member(t, v.variants[j]));
+        let i = choose|i: int| var_pos(t) <= i < lid_end(t) && v.variants[j] == lower(#[trigger] t[i]);
+        assert(vp <= i < n);
+    }
+    lemma_wsum_injection(v.variants, t, vp, n);
+    // input side: the subtags before the variants, one by one
+    lemma_wsum_range_split(t, 0, vp, n);
+    lemma_wsum_range_all(t, n);
+    assert(t.take(n) =~= t);
+    assert(wsum_range(t, 0, vp) == (1 + t[0].len()) + (if has_script(t) { 1 + t[1].len() } else { 0 }) + (if has_region(t) { 1 + t[region_pos(t)].len() } else { 0 })) by {
+        reveal_with_fuel(wsum_range, 4);
+    }
+}
